@@ -1,3 +1,4 @@
+import NibabelModel.Model.C06
 /-! Model/C08 — executable model for C08 "a truncated file is never read back as different data"
     (core Lean only).
 
@@ -225,6 +226,67 @@ def readTailPair (fmt : VolFmt) (hs is : Src) (a : Nat) : Except Err Bytes :=
   match readHeader fmt false hs with
   | .error e => .error e
   | .ok (n, off) => segRead is (off + a) (n - a)
+
+/-- the loop of `read_segments` (`fileslice.py:672-676`): seek + read every segment into one buffer -/
+def readSegsLoop (s : Src) : List (Nat × Nat) → Except Err Bytes
+  | [] => .ok []
+  | (o, l) :: r =>
+    match s.read o l with
+    | .error e => .error e
+    | .ok b =>
+      match readSegsLoop s r with
+      | .error e => .error e
+      | .ok bs => .ok (b ++ bs)
+
+/-- `read_segments(fileobj, segments, n_bytes)`: all three branches (no / one / several segments)
+    deliver the concatenation of what the reads returned and raise unless that is exactly `n_bytes`
+    long ("Whoops, not enough data in file" / "Oh dear, n_bytes does not look right"). -/
+def readSegments (s : Src) (segs : List (Nat × Nat)) (nBytes : Nat) : Except Err Bytes :=
+  match readSegsLoop s segs with
+  | .error e => .error e
+  | .ok b => if b.length ≠ nBytes then .error .trunc else .ok b
+
+/-- the segments of the C06 model as (offset, length) pairs; a negative offset cannot be sought -/
+def natSegs : List C06.Segment → Option (List (Nat × Nat))
+  | [] => some []
+  | sg :: r =>
+    if sg.offset < 0 then none
+    else match natSegs r with
+      | none => none
+      | some t => some ((sg.offset.toNat, sg.length) :: t)
+
+def segsTotal (segs : List (Nat × Nat)) : Nat := (segs.map (·.2)).sum
+
+/-- `SKIP_THRESH` of `fileslice.py:13` -/
+def skipThresh : Nat := 256
+
+/-- the raw bytes `fileslice` fetches for `dataobj[idx]` of an array of `shape` × `isz` bytes stored in
+    Fortran order at `off` (`ArrayProxy._get_unscaled` → `fileslice` → `calc_slicedefs` with the default
+    threshold heuristic → `read_segments`); what happens to the buffer afterwards (reshape, post-slicing)
+    is a function of these bytes only. -/
+def readSliceAt (s : Src) (idx : List C06.IdxItem) (shape : List Nat) (isz off : Nat) : Except Err Bytes :=
+  match C06.calcSlicedefs (C06.thresholdHeuristic skipThresh) idx shape isz off .F with
+  | .error _ => .error .bad
+  | .ok d =>
+    match natSegs d.segments with
+    | none => .error .bad
+    | some segs => readSegments s segs (segsTotal segs)
+
+/-- the same bytes taken from a complete file -/
+def sliceBytes (file : Bytes) (segs : List (Nat × Nat)) : Bytes :=
+  segs.flatMap (fun (o, l) => (file.drop o).take l)
+
+def readSliceSingle (fmt : VolFmt) (s : Src) (idx : List C06.IdxItem) (shape : List Nat) (isz : Nat) :
+    Except Err Bytes :=
+  match readHeader fmt true s with
+  | .error e => .error e
+  | .ok (_, off) => readSliceAt s idx shape isz off
+
+def readSlicePair (fmt : VolFmt) (hs is : Src) (idx : List C06.IdxItem) (shape : List Nat) (isz : Nat) :
+    Except Err Bytes :=
+  match readHeader fmt false hs with
+  | .error e => .error e
+  | .ok (_, off) => readSliceAt is idx shape isz off
 
 /-- `loadsave.load` (`loadsave.py:100-106`): a file of size 0 on disk is refused before any reader runs -/
 def load {α : Type} (diskLen : Nat) (r : Except Err α) : Except Err α :=
